@@ -1,29 +1,36 @@
 """Per-property configuration of the orchestrator: which design checks (D), driver workload and trace
-specification (T) and behaviour generators (R) decide each property."""
-import json, os, re, random
+specification (T) and behaviour generators (R) decide each property.  The definitions live in
+tools/propdefs/*.py (one file per property or group); each may define PROPS, DESIGN, GEN dicts, a
+`selftests` list of callables and `replayers`.
+
+PROPS[id] keys: design (names in DESIGN), drive (harness workload name), trace_cfgs ({module: cfg} for
+trace modules that need a non-default cfg), gens (names in GEN), extra (callable(tier, seed, outdir)
+-> (mismatch items, info dict)), level, level_text, level_note, technique, assumptions, exhaustive.
+DESIGN[name]: module, quick, thorough (cfg files), workers, heap, timeout.
+GEN[name]: module, quick, thorough (cfg), kind (harness replayer), simulate_quick/simulate_thorough
+(e.g. "num=500" for -simulate), workers.
+"""
+import json, os, glob, importlib.util
 
 HOOK_COMMITS = ["563de8a"]
+DESIGN, GEN, PROPS, SELFTESTS = {}, {}, {}, []
 
-DESIGN = {
-    "Calendar": dict(module="MC_Calendar", quick="MC_Calendar_quick.cfg", thorough="MC_Calendar_thorough.cfg", workers=8),
-}
-
-GEN = {}
-
-PROPS = {
-    "C01": dict(design=["Calendar"], drive="C01", exhaustive=False,
-                level_text="Calendar.tla defines the proleptic Gregorian calendar from first principles; MC_Calendar model-checks the property's own statement "
-                           "(bijection of the four forms, exact constructor domains, order, successor, 400-year periodicity) on bounded windows; every recorded "
-                           "NaiveDate call (all forms of every date in the judged windows, constructor argument lattice, random tuples, order) is validated "
-                           "by TLC against the spec, and a Rust sweep extends the judged windows to all 191,491,529 dates by the periodicity lemma.",
-                technique="TLA+ Calendar spec: TLC design check + trace validation of recorded NaiveDate calls; exhaustive date sweep closed by a periodicity lemma",
-                assumptions=["TLC 1.8 and its Json/IOUtils overrides", "harness projection of NaiveDate to its day number via num_days_from_ce (itself judged on every date event)",
-                             "periodic-extension argument: the Rust sweep checks all 191,491,529 dates against the date a whole number of 400-year cycles away; TLC judges the base window and both range ends; the lemma Periodic is checked by MC_Calendar"]),
-}
+_here = os.path.dirname(os.path.abspath(__file__))
+for _p in sorted(glob.glob(os.path.join(_here, "propdefs", "*.py"))):
+    _spec = importlib.util.spec_from_file_location("propdefs_" + os.path.basename(_p)[:-3], _p)
+    _m = importlib.util.module_from_spec(_spec)
+    _spec.loader.exec_module(_m)
+    DESIGN.update(getattr(_m, "DESIGN", {}))
+    GEN.update(getattr(_m, "GEN", {}))
+    PROPS.update(getattr(_m, "PROPS", {}))
+    SELFTESTS += getattr(_m, "SELFTESTS", [])
 
 
 def selftest(V):
-    return 0
+    rc = 0
+    for t in SELFTESTS:
+        rc |= t(V)
+    return rc
 
 
 def replay(V, path):
